@@ -273,7 +273,7 @@ def serializeHeyawake (h w : Nat) (rooms clues : PyVal) : Outcome Str :=
   serProblemAsUrl Gen.heyawakeCodec.comb Gen.heyawakeCodec.urlName h w (.tuple [rooms, clues]) defaultPrefix
 
 /-- `range(a, b)` on Python ints -/
-def intRange (a b : Int) : List Int := (List.range (b - a).toNat).map fun i => a + (i : Int)
+def intRange (a b : Int) : List Int := (List.range (b - a).toNat).map fun (i : Nat) => a + (i : Int)
 
 /-- `convert_from_rectangular_repr`: each `(y0, x0, y1, x1, n)` becomes the room of the cells of the half-open
 rectangle, row by row, with clue `n` -/
